@@ -340,7 +340,49 @@ def oracle_range(ctx, o):
         ctx.violation("S5", f"jsi_range over the flat (signal, idler) list differs from jsi_range over the equivalent {o['rep']} grid", {"kind": "range_flat", "rep": o["rep"]}, inp)
 
 
+def range_table():
+    """range functions of the generated call table coq/Gen/Ranges.v"""
+    try:
+        txt = open(os.path.join(COQ, "Gen", "Ranges.v")).read()
+    except OSError:
+        return []
+    return re.findall(r'\("(\w+_range)", \("', txt)
+
+
+def oracle_range_all(ctx, o, table):
+    n = o["nx"] * o["ny"]
+    setup = "SPDC::default()" if o["spdc"] == 0 else "KTP type-II (e->eo) periodically poled, 775 -> 1550 nm (harness c14::spdc_for(1))"
+    pts = pairs(o["pts"])
+    ctx.seen(("range_all", o["rep"], o["spdc"], o["nx"], o["ny"], o["pts"][0] if o["pts"] else ""))
+    ctx.count("range_all:" + o["rep"])
+    got = {e["fn"]: e for e in o["fns"]}
+    for fn in table:
+        if fn not in got:
+            ctx.proof_failures.append(("Gen/Ranges.v", fn, f"range function {fn} of the generated call table is not exercised by the harness (harness/src/c14.rs::range_table_case)"))
+    if o["swapped_args_differ_idler"] == 0 or o["swapped_args_differ_own"] == 0:
+        ctx.note(f"range_all ({o['rep']}, setup {o['spdc']}): no grid point distinguishes (ws, wi) from (wi, ws) — the argument-order check is vacuous on this grid")
+    for fn, e in got.items():
+        w = e["width"]
+        inp = {"setup": setup, "integrator": f"Simpson {{ divs: {o['divs']} }}", "representation": o["rep"], "frequency_grid": o["grid"], "nx": o["nx"], "ny": o["ny"],
+               "call": f"JointSpectrum::{fn}(<{o['rep']} space of the frequency grid>) on a 1-thread rayon pool"}
+        if len(e["range"]) != n * w:
+            ctx.violation("S5", f"{fn} over a {o['nx']}x{o['ny']} {o['rep']} grid returns {len(e['range']) // w} values instead of {n}", {"kind": "range_count", "fn": fn, "rep": o["rep"]}, inp)
+            continue
+        if e["range"] != e["pointwise"]:
+            k = next(i for i in range(len(e["range"])) if e["range"][i] != e["pointwise"][i]) // w
+            nbad = sum(1 for i in range(n) if e["range"][i * w:(i + 1) * w] != e["pointwise"][i * w:(i + 1) * w])
+            ws, wi = pts[k]
+            ctx.violation("S5", f"{fn} ({setup}; {o['nx']}x{o['ny']} {o['rep']} grid): value {k} = {[f64_of_hex(x) for x in e['range'][k * w:(k + 1) * w]]} is not the point-by-point value "
+                                f"{[f64_of_hex(x) for x in e['pointwise'][k * w:(k + 1) * w]]} at grid point {k} (column {k % o['nx']}, row {k // o['nx']}: ws = {f64_of_hex(ws)!r}, wi = {f64_of_hex(wi)!r} rad/s); "
+                                f"{nbad} of {n} points differ",
+                          {"kind": "range_vs_pointwise", "fn": fn, "rep": o["rep"]},
+                          dict(inp, index=k, ws=ws, wi=wi, range_value=e["range"][k * w:(k + 1) * w], pointwise=e["pointwise"][k * w:(k + 1) * w], points_differing=nbad))
+
+
 def oracle(ctx, obs):
+    table = range_table()
+    if not any(o["kind"] == "range_all" for o in obs) and any(o["kind"] == "range" for o in obs):
+        ctx.proof_failures.append(("harness", "range_all", "no observation of the full range-function table was produced"))
     for o in obs:
         k = o["kind"]
         if k == "harness_crash":
@@ -357,6 +399,10 @@ def oracle(ctx, obs):
             oracle_space(ctx, o)
         elif k == "range":
             oracle_range(ctx, o)
+        elif k == "range_all":
+            oracle_range_all(ctx, o, table)
+        elif k == "range_all_failed":
+            ctx.violation("S5", "evaluating the range functions on a 1-thread pool did not finish within 600 s", {"kind": "timeout", "what": "range_all"}, o)
     return oracle_transpose(ctx, obs)
 
 
@@ -491,6 +537,16 @@ def selftest(ctx, obs):
         before = len(probe.violations); oracle_steps2d(probe, a); n_expected += 1
         if len(probe.violations) == before:
             ctx.note("oracle self-test: a column-major 2-D observation was not flagged")
+    # a range function that evaluates the swapped spectrum at (ws, wi) instead of (wi, ws) must be reported with its index
+    ra = next((o for o in obs if o["kind"] == "range_all"), None)
+    if ra:
+        a = copy.deepcopy(ra)
+        for e in a["fns"]:
+            if e["fn"] == "jsi_singles_idler_normalized_range":
+                e["range"] = a["selftest_idler_normalized_unswapped"]
+        before = len(probe.violations); oracle_range_all(probe, a, range_table()); n_expected += 1
+        if not any(v["sig"] == {"kind": "range_vs_pointwise", "fn": "jsi_singles_idler_normalized_range", "rep": a["rep"]} for v in probe.violations[before:]):
+            ctx.note("oracle self-test: an idler range function with unswapped arguments was not flagged")
     # a non-square shape behaving like the former in-place swap (2x3 panics, 3x2 wrong) must be reported
     tr = [copy.deepcopy(o) for o in obs if o["kind"] == "transpose"]
     for o in tr:
@@ -557,13 +613,14 @@ def run(ctx):
         ctx.log("S5 deep search for a failing input (proof obligations are broken)")
         for k in range(2):
             obs2 = run_harness(ctx, binp, ["c14", ctx.seed + 1000 + k, 8, "grid"])
+            obs2 += run_harness(ctx, binp, ["c14", ctx.seed + 1000 + k, 6, "range"], timeout=900)
             oracle(ctx, obs2)
             if any(v["found_input"] and v["sig"].get("kind") != "transpose_nonsquare" for v in ctx.violations):
                 break
     ctx.cov["rule"] = ("1-D: 8 endpoint classes (ascending, descending, degenerate, dyadic, optical frequencies, wavelengths, mixed sign, 18 decades) x counts "
                        "{0,1,2,3,300, uniform 0..300}; 2-D: the same classes per axis, counts incl. 0, 1, 2x3, 300; index maps: full table for cols 1..12 plus random up to 2^40; "
                        "transpose: every shape 1..12 x 1..12, plus lengths 0..13 x num_cols 0..4 (ragged / zero columns, model correspondence only); spaces: random wavelength / frequency (equal and unequal spans) / sum-diff spaces with counts 0..300; "
-                       "range evaluators: two SPDC setups x three representations x flat lists.  distinct = distinct input bits; empty grids count as trivial")
+                       "range evaluators: two SPDC setups x three representations x flat lists; every range function of the generated call table (incl. normalized and idler variants) against point-by-point evaluation, bit-exact on a 1-thread pool, on an asymmetric type-II setup with non-square grids whose axes differ in centre, span and count.  distinct = distinct input bits; empty grids count as trivial")
     ctx.cov["clauses"] = {
         "1-D: n values, first, last, even spacing": "proved (reals, generated Steps::value) + measured 4 ulp",
         "1-D/2-D from either end, any interleaving": "proved (any carrier, generated next/next_back)",
